@@ -15,7 +15,7 @@ PROPERTY = "C07"
 LEVEL = "model_checking"
 
 SHAPES = ["sum", "weighted", "zero", "cancel", "nested", "scaled", "dd", "nn", "three"]
-POINTS = ["x0", "x1", "x0c", "combo", "last"]
+POINTS = ["x0", "x1", "x0c", "cancel", "combo", "last"]
 OPS_FULL = ["oracle", "gradient", "value", "call", "stat", "fixed", "prox", "els", "iprox", "epssub"]
 OPS_RED = ["oracle", "value", "stat", "prox"]
 TOL = Fraction(1, 10 ** 12)
@@ -62,7 +62,8 @@ class World(object):
                                "F": all(n in ("f1", "f3") for n in self.weights)}
         x0 = p.set_initial_point()
         x1 = p.set_initial_point()
-        self.points = {"x0": x0, "x1": x1, "x0c": 1 * x0, "combo": x0 - 0.5 * x1}
+        # "x0c" and "cancel" denote x0 through other objects: a scaled copy, and a subtraction in which a leaf cancels exactly
+        self.points = {"x0": x0, "x1": x1, "x0c": 1 * x0, "cancel": x1 - (x1 - x0), "combo": x0 - 0.5 * x1}
         self.returned = {}     # (fname, frozen point decomposition) -> list of ('g'|'v', canonical)
         self.declared_stationary = []   # (fname, point object)
         self.log = []
@@ -127,6 +128,9 @@ class World(object):
             raise KeyError(name)
 
 
+POINTS_RED = ["x0", "x1", "cancel", "combo", "last"]
+
+
 def alphabet(shape, ops):
     w = World(shape)
     out = []
@@ -135,7 +139,7 @@ def alphabet(shape, ops):
             if name in ("stat", "fixed"):
                 out.append((fname, name, None))
             else:
-                for pname in POINTS:
+                for pname in (POINTS if ops is OPS_FULL else POINTS_RED):
                     out.append((fname, name, pname))
     return out
 
@@ -279,7 +283,7 @@ def replay(case):
 def meta(tier):
     return dict(
         rule="all call histories up to the depth bound over {oracle, gradient, value, __call__, stationary_point, "
-             "fixed_point, proximal_step, exact_linesearch_step, inexact_proximal_step, epsilon_subgradient_step} x {terms, sum} x {x0, x1, a second object with x0's decomposition, a "
+             "fixed_point, proximal_step, exact_linesearch_step, inexact_proximal_step, epsilon_subgradient_step} x {terms, sum} x {x0, x1, a second object with x0's decomposition, x1 - (x1 - x0), a "
              "combination, the point created by the latest stationary_point/fixed_point/proximal_step} on 9 composite "
              "shapes (sum, weighted, zero weight, cancelling weight, nested, 3*(f/3), two differentiable, two "
              "non-differentiable, three terms); each history is replayed on a fresh PEP and judged by invariants I1-I6. "
